@@ -938,6 +938,29 @@ func testRegistry(rt *rapid.T, st *RunStats) {
 				h := ecs.NewResource[keptRes](w)
 				kept = &h
 			}
+			if isKept && rapid.IntRange(0, 3).Draw(t, "rebindKeptHandle") == 0 {
+				// Resource[T].New on the kept (initialized) handle binds a handle to another world, in which the resource types
+				// were registered in another order: it must address keptRes there, not the slot with this world's ID
+				w2 := ecs.NewWorld()
+				var first ecs.ResID
+				for k := 0; k <= (int(id)+1)%7; k++ { // a few other types first (the maximum is never reached)
+					first = ecs.ResourceTypeID(w2, reflect.ArrayOf(k+1, reflect.TypeFor[uint64]()))
+				}
+				h2 := kept.New(w2)
+				v2 := &keptRes{V: 4242}
+				if p := try(func() { h2.Add(v2) }); p != nil {
+					failf("resources|rebound-handle|add", "Add through a handle made by Resource[T].New(otherWorld) panicked: %v", p)
+				}
+				if got := ecs.GetResource[keptRes](w2); got != v2 || h2.Get() != v2 || !h2.Has() {
+					failf("resources|rebound-handle|get", "a handle made by Resource[T].New(otherWorld) does not address T there: GetResource=%p Get=%p Has=%v, added %p", got, h2.Get(), h2.Has(), v2)
+				}
+				for k := 0; k <= int(first.Index()); k++ {
+					if w2.Resources().Has(ecs.ResourceTypeID(w2, reflect.ArrayOf(k+1, reflect.TypeFor[uint64]()))) {
+						failf("resources|rebound-handle|other-slot", "adding through a re-bound handle made resource %d of the other world present", k)
+					}
+				}
+				cls["resource-handle-rebound-to-another-world"] = true
+			}
 			viaHandle := isKept && rapid.Bool().Draw(t, "viaKeptHandle")
 			switch rapid.IntRange(0, 2).Draw(t, "resOp") {
 			case 0:
